@@ -6,6 +6,7 @@
    the 7th leaves a stream of genuine chunks, each under its own counter with its own tag —
    nothing the encryption layer checks is violated — whose END now lies right behind the
    fake footer.  ArchiveFooter::deserialize_from seeks from the end: the reader lists "evil". *)
+From MLA Require Import Limit.
 From MLA Require Import Base Stream Blocks Writer Reader EncLayer EncAuth EncAuthStream ReaderAuthSim Inst
   RoundTripReader RoundTripWriter.
 From MLAGen Require Src.
@@ -19,12 +20,14 @@ Module D17.
   Definition oid (f : footer) : footer := f.
   Definition CH : N := 13.
   Definition TG : N := 2.
+  (* the bincode limit of the source (gen/Src.v): the instances below are computed *)
+  Notation LIMp := Src.BINCODE_MAX_DESERIALIZE_prod.
 
   Definition evil : bytes := [101; 118; 105; 108].
   Definition fake : footer := [(evil, mkFI [0] 0 0)].
   Definition content : bytes := ser_footer fake.
   Definition ops : list wop := [OAdd [97] (len content) content].
-  Definition run := wrun FN TS TC TA TE Hz oid w_init (ops ++ [OFinalize]).
+  Definition run := wrun (LIM := LIMp) FN TS TC TA TE Hz oid w_init (ops ++ [OFinalize]).
   Definition sf : wstate := fst run.
   Definition plain : bytes := w_out sf.
   Definition wire : bytes := enc_format CH toy_ks (toy_tag TG) plain.
@@ -37,7 +40,7 @@ Module D17.
   Definition open_list (w : bytes) : res (list bytes) :=
     match enc_open CH TG toy_ks (toy_tag TG) (Cursor w) 0 with
     | (s, Ok _) =>
-      match ropen (Enc w) s with
+      match ropen (LIM := LIMp) (Enc w) s with
       | Ok r => Ok (list_files (Enc w) r)
       | Err e => Err e
       | Crash c => Crash c
@@ -50,7 +53,7 @@ Module D17.
   Definition open_read (w : bytes) (name : bytes) (n : N) : res (option bytes) :=
     match enc_open CH TG toy_ks (toy_tag TG) (Cursor w) 0 with
     | (s, Ok _) =>
-      match ropen (Enc w) s with
+      match ropen (LIM := LIMp) (Enc w) s with
       | Ok r =>
         match get_file FN TS TC TA TE (Enc w) r name with
         | (_, Ok (Some (bs, _))) =>
@@ -114,7 +117,7 @@ End D17.
    reader opens and lists a name that was never started *)
 Theorem C03_D17_witness :
   exists (ops : list wop) (w' : bytes),
-    let run := wrun D17.FN Src.BT_FileStart Src.BT_FileContent Src.BT_EndOfArchiveData Src.BT_EndOfFile
+    let run := wrun (LIM := Src.BINCODE_MAX_DESERIALIZE_prod) D17.FN Src.BT_FileStart Src.BT_FileContent Src.BT_EndOfArchiveData Src.BT_EndOfFile
                     D17.Hz D17.oid w_init (ops ++ [OFinalize]) in
     Forall (fun r => is_ok r = true) (snd run) /\
     prefix w' (enc_format D17.CH toy_ks (toy_tag D17.TG) (w_out (fst run))) /\
@@ -183,7 +186,7 @@ Module NF.
   Definition open_list_x (w0 : bytes) : res (list bytes) :=
     match enc_open CH TG toy_ks xtag (Cursor w0) 0 with
     | (s, Ok _) =>
-      match ropen (EncReader CH TG toy_ks xtag (Cursor w0)) s with
+      match ropen (LIM := LIMp) (EncReader CH TG toy_ks xtag (Cursor w0)) s with
       | Ok r => Ok (list_files (EncReader CH TG toy_ks xtag (Cursor w0)) r)
       | Err e => Err e
       | Crash c => Crash c
